@@ -735,7 +735,7 @@ def sd14(F, R):
     for (b, i, v) in oks:
         ok, _ = guarded(f, b, g_cmp("Eq", True, lambda a: has_sub(a, lambda q: q[0] == "call" and q[1] and path_matches(q[1], "SdCardInner::card_acmd")), lambda z: z[0] == "c" and z[1] == 0))
         ok2, _ = guarded(f, b, g_cmp("Eq", False, lambda a: has_sub(a, lambda q: q[0] == "call" and q[1] and path_matches(q[1], "SdCardInner::card_acmd")), lambda z: z[0] == "c" and z[1] == 0))
-        R.require(ok or not ok2, f, "ready", "identification completes without ACMD41 == R1_READY_STATE", f.loc(b, i))
+        R.require(ok, f, "ready", "identification can complete without ACMD41 having answered R1_READY_STATE (0x00): an error flag or any non-idle answer is taken for 'initialised' and data commands follow", f.loc(b, i))
 
 
 DELAY_CTORS = {"new_command": "DEFAULT_COMMAND_RETRIES", "new_read": "DEFAULT_READ_RETRIES", "new_write": "DEFAULT_WRITE_RETRIES"}
